@@ -128,6 +128,8 @@ def c05(F, R, tier):
     c04rt.check(F, R, tier, props=("C05",))
     import c05rt
     c05rt.check(F, R, tier, props=("C05",))
+    import c20rt
+    c20rt.check(F, R, tier, props=("C05",))
 
 
 @prop("C04",
@@ -145,6 +147,8 @@ def c04(F, R, tier):
     c04rt.check(F, R, tier, props=("C04",))
     import c05rt
     c05rt.check(F, R, tier, props=("C04",))
+    import c20rt
+    c20rt.check(F, R, tier, props=("C04",))
 
 
 @prop("C17",
@@ -191,6 +195,8 @@ def c20(F, R, tier):
     c04.t_map_direction(F, R)
     # ... and from the orientation of each row: the constant must stay on the right of the relation it was written with
     c04.t_map_comparison(F, R)
+    import c20rt
+    c20rt.check(F, R, tier, props=("C20",))
 
 
 @prop("C10",
